@@ -231,6 +231,51 @@ Definition vrf_verify_sortition PK Proof p2h := vrf_verify_sortition_with PK Pro
 Definition vrf_verify_priority PK Proof p2h keccak :=
   vrf_verify_priority_with PK Proof p2h keccak choose.
 
+(* ---- decoding of a VRF proof (secp256k1VRF.go: ProofToHash) ------------------- *)
+(* proof = s (32 bytes) ++ t (32 bytes) ++ encoding of the VRF point (65 bytes).
+   Byte-level parsing is modelled exactly; the group arithmetic is abstract:
+   [on_curve] is curve.IsOnCurve, [dleq_check pk m s t x y d] is the comparison
+   s == H2(G, H1(m), pk, d, [t]G + [s]pk, [t]H1(m) + [s](x,y)), [sha256] hashes the
+   65 encoding bytes (the VRF output). *)
+Definition secp256k1_p : Z := 2 ^ 256 - 2 ^ 32 - 977.
+
+Definition be_val (l : list Z) : Z := fold_left (fun a b => a * 256 + b) l 0.
+
+Section VrfDecode.
+  Variable PK : Type.
+  Variable field_p : Z.
+  Variable on_curve : Z -> Z -> bool.
+  Variable dleq_check : PK -> list Z -> Z -> Z -> Z -> Z -> list Z -> bool.
+  Variable sha256 : list Z -> Z.
+
+  (* elliptic.Unmarshal for a 32-byte field: length 65, tag 4 (uncompressed),
+     both coordinates below the field prime, on the curve *)
+  Definition unmarshal (d : list Z) : option (Z * Z) :=
+    if negb (Z.of_nat (length d) =? 65) then None
+    else match d with
+         | [] => None
+         | tag :: rest =>
+           if negb (tag =? 4) then None
+           else
+             let x := be_val (firstn 32 rest) in
+             let y := be_val (skipn 32 rest) in
+             if (field_p <=? x) || (field_p <=? y) then None
+             else if on_curve x y then Some (x, y) else None
+         end.
+
+  Definition proof_to_hash_bytes (pk : PK) (m proof : list Z) : option Z :=
+    if negb (Z.of_nat (length proof) =? 129) then None
+    else
+      let s := firstn 32 proof in
+      let t := firstn 32 (skipn 32 proof) in
+      let d := skipn 64 proof in
+      match unmarshal d with
+      | None => None
+      | Some (x, y) =>
+        if dleq_check pk m (be_val s) (be_val t) x y d then Some (sha256 d) else None
+      end.
+End VrfDecode.
+
 (* ---- the prover-side manager (sortition_mgr.go) --------------------------- *)
 (* What the look-back providers return for a round (getLookBackStake /
    getLookBackSeed); lb: 0 = LookBackPos, 1 = LookBackStake, 2 = LookBackCert. *)
@@ -460,7 +505,12 @@ Inductive case :=
    ops, and per op the observed (flag, has view, seats, threshold, kind,
    SeedValue, output of ProofToHash of the returned proof against the message of
    the round ASKED for: -1 does not verify, -2 view without proof, -3 no view) *)
-| CMgr (env : list (Z * envrec)) (vtbl : list (Z * Z)) (ops : list mop) (got : list obs).
+| CMgr (env : list (Z * envrec)) (vtbl : list (Z * Z)) (ops : list mop) (got : list obs)
+(* ProofToHash on a 129-ish byte proof: oc = IsOnCurve of the two coordinates
+   found at bytes 65..96 / 97..128, dl = the group-level check on them, sha =
+   sha256 of bytes 64..128 (all three computed by the harness with the curve
+   library), got = what ProofToHash returned *)
+| CProof (proof : list Z) (oc dl : bool) (sha : Z) (got : option Z).
 
 Definition tbl_fun (tbl : list bool) (h : Z) : bool :=
   if h <? 0 then false else nth (Z.to_nat h) tbl true.
@@ -583,6 +633,9 @@ Definition case_ok (rep : bool) (c : case) : bool :=
     let outs := snd (mrun unit Z (ev_mgr vtbl) (fun _ => 0) tt
                           (env_stake_tbl env) (env_seed_tbl env) (mgr_init Z) ops) in
     obs_all_eqb (map (fun oo => obs_of env vtbl (fst oo) (snd oo)) (combine ops outs)) got
+  | CProof proof oc dl sha got =>
+    opt_Z_eqb (proof_to_hash_bytes unit secp256k1_p (fun _ _ => oc) (fun _ _ _ _ _ _ _ => dl)
+                                   (fun _ => sha) tt [] proof) got
   end.
 
 Fixpoint mismatches_from (rep : bool) (i : N) (l : list case) : list N :=
